@@ -589,6 +589,9 @@ def k_repr(p):
     back, ex = call(dsw.latter_map_to_accessor, lm, k)
     if ex or back.tolist() != rows:
         return True, "accessor -> latter map -> accessor differs (%s)" % ex
+    back, ex = call(dsw.latter_map_to_accessor, {v: list(reversed(exp_lm[v])) for v in live}, k)
+    if ex or back.tolist() != rows:
+        return True, "latter map with reordered successor lists converts to a different accessor (%s)" % ex
     mx, ex = call(dsw.accessor_to_adjacency_matrix, acc.copy())
     if ex:
         return True, "accessor_to_adjacency_matrix raised %s" % ex
@@ -744,6 +747,14 @@ def _run_history(scenario, spec, isolate):
     env = _build_env(spec)
     out = {}
     last = None
+    kept = None
+
+    def edit(acc):
+        for v in range(acc.shape[0]):
+            live = [j for j in range(4) if acc[v][j] >= 0]
+            if len(live) >= 2:
+                acc[v, live[-1]] = -1
+                return
     for label, fn, a, kw in scenarios.SCENARIOS[scenario](env):
         if fn is None:
             if label == "TRIM-LAST-RESULT":
@@ -752,16 +763,31 @@ def _run_history(scenario, spec, isolate):
             elif label == "DRAW":
                 if not isolate:
                     np.random.random(5)
+            elif label == "KEEP-LAST":
+                kept = (last, _norm(last))
+            elif label == "CHECK-KEPT":
+                if not isolate and kept is not None and _norm(kept[0]) != kept[1]:
+                    out["CHECK-KEPT"] = ("ok", "REWRITTEN")
+            elif label == "EDIT-ACC-A":
+                edit(env["acc"])
             elif label.startswith("SEED-"):
                 np.random.seed(int(label[5:]))
             continue
         if isolate:
+            for m in ("dsw.operation", "dsw.graphized", "dsw.biofilter", "dsw.spiderweb", "dsw"):
+                importlib.reload(importlib.import_module(m))
+            import dsw  # noqa
             env2 = _build_env(spec)
+            if label.endswith("-edited"):
+                edit(env2["acc"])
             a2 = scenarios.SCENARIOS[scenario](env2)
             a, kw = [(x[2], x[3]) for x in a2 if x[0] == label][0]
+        target = dsw
+        for part in fn.split("."):
+            target = getattr(target, part)
         buf = io.StringIO()
         with contextlib.redirect_stdout(buf):
-            r, ex = call(getattr(dsw, fn), *a, **kw)
+            r, ex = call(target, *a, **kw)
         last = r
         out[label] = ("exc", ex.split(":")[0]) if ex else ("ok", _norm(r))
     return out, env
@@ -772,14 +798,26 @@ def k_history(p):
     scenario, spec = p["scenario"], p["env"]
     hist, env = _run_history(scenario, spec, False)
     fresh = _build_env(spec)
+    import scenarios as _sc
+    if any(st[0] == "EDIT-ACC-A" for st in _sc.SCENARIOS[scenario](_build_env(spec))):
+        a_ = fresh["acc"]
+        for v in range(a_.shape[0]):
+            live = [j for j in range(4) if a_[v][j] >= 0]
+            if len(live) >= 2:
+                a_[v, live[-1]] = -1
+                break
     for name in spec:
         if spec[name][0] == "filter":
             if vars(env[name]) != vars(fresh[name]):
                 return True, "shared filter object was modified by the history"
         elif _norm(env[name]) != _norm(fresh[name]):
             return True, "shared argument %r was modified by the history: %s -> %s" % (name, str(_norm(fresh[name]))[:120], str(_norm(env[name]))[:120])
+    if hist.get("CHECK-KEPT") == ("ok", "REWRITTEN"):
+        return True, "a result handed out by an earlier call was rewritten by a later call"
     iso, _ = _run_history(scenario, spec, True)
     for label in hist:
+        if label == "CHECK-KEPT":
+            continue
         if hist[label] != iso[label]:
             return True, "call %r returns %s in the history but %s on fresh arguments in a fresh process" % (label, str(hist[label])[:160], str(iso[label])[:160])
     if scenario == "verbose":
@@ -815,8 +853,7 @@ def k_capacity(p):
         return (True, "arc-less graph gives %r" % r) if r != 0.0 else (False, "0 for the arc-less graph")
     live = [v for v in range(N) if any(x >= 0 for x in rows[v])]
     degs = set(sum(1 for x in rows[v] if x >= 0 and x in live) for v in live)
-    closed = all(x < 0 or x in live for v in live for x in rows[v])
-    if repeats == 1 and closed and len(degs) == 1:
+    if repeats == 1 and len(degs) == 1:
         d = degs.pop()
         if abs(r - np.log2(d)) > 1e-12:
             return True, "every live vertex has %d live successors but the deterministic mode returns %r, not log2 %d" % (d, r, d)
